@@ -48,6 +48,13 @@ func (p *c02) Init(tier string) {
 	p.tier = tier
 	p.rows6 = c02Rows()
 	leaves := []Expr{Col{"a"}, Col{"d"}, Col{"zz"}, Col{"o.p.q"}, Lit{V: 2.0}, Lit{V: 0.5}, Lit{V: 3.0}, Lit{V: -1.0}}
+	// constants that single precision cannot hold, as leaves of + - * / and alone
+	for _, f := range []float64{0.1, 2.7, 16777217, 1e40} {
+		p.cases = append(p.cases, c02case{kind: 0, expr: Lit{V: f}})
+		for _, op := range []string{"+", "-", "*", "/"} {
+			p.cases = append(p.cases, c02case{kind: 0, expr: Bin{op, Col{"a"}, Lit{V: f}}}, c02case{kind: 0, expr: Bin{op, Lit{V: f}, Col{"d"}}})
+		}
+	}
 	add := func(e Expr) { p.cases = append(p.cases, c02case{kind: 0, expr: e}) }
 	for _, l := range leaves {
 		add(l)
@@ -147,8 +154,8 @@ func (p *c02) Init(tier string) {
 	}
 	// select-list shapes
 	menu := []Item{
-		{E: Col{"a"}}, {E: Col{"d"}}, {E: Col{"o.p.q"}}, {E: Col{"zz"}}, {E: Col{"a"}, As: "x"}, {E: Col{"d"}, As: "a"},
-		{E: Bin{"+", Col{"a"}, Lit{V: 1.0}}, As: "x"}, {E: Lit{V: "2"}, As: "s2"}, {E: Case{Whens: []When{{conds[0], Col{"d"}}}, Else: Lit{V: 0.0}}, As: "k"},
+		{E: Col{"a"}}, {E: Col{"d"}}, {E: Col{"o.p.q"}}, {E: Col{"zz"}}, {E: Col{"a"}, As: "nextId"}, {E: Col{"d"}, As: "a"},
+		{E: Bin{"+", Col{"a"}, Lit{V: 1.0}}, As: "X"}, {E: Lit{V: "2"}, As: "s2"}, {E: Case{Whens: []When{{conds[0], Col{"d"}}}, Else: Lit{V: 0.0}}, As: "k"},
 		{Star: true}, {E: Col{"o"}}, {E: Col{"id"}}, {E: Cmp{">", Col{"a"}, Lit{V: 1.0}}, As: "f"},
 	}
 	wheres := []Expr{nil, Cmp{">", Col{"a"}, Lit{V: 0.0}}, Cmp{"=", Col{"s"}, Lit{V: "x"}}}
